@@ -2,6 +2,7 @@
 package lease_set2
 
 import (
+	"crypto/ed25519"
 	"encoding/binary"
 	"sort"
 	"strings"
@@ -13,6 +14,7 @@ import (
 	"github.com/go-i2p/common/lease"
 	"github.com/go-i2p/common/offline_signature"
 	sig "github.com/go-i2p/common/signature"
+	"github.com/go-i2p/crypto/types"
 	"github.com/go-i2p/logger"
 	"github.com/samber/oops"
 )
@@ -993,9 +995,10 @@ func determineSignatureType(dest destination.Destination, offlineSig *offline_si
 }
 
 // createLeaseSet2Signature signs the LeaseSet2 data with the provided key.
+// A nil signingKey yields an all-zero placeholder signature of the correct size
+// (an unsigned LeaseSet2 that the caller signs later); any other key is used to
+// produce a real signature.
 func createLeaseSet2Signature(signingKey interface{}, data []byte, sigType uint16) (sig.Signature, error) {
-	// This is a placeholder - actual signing would use the crypto library
-	// For now, we create a zero signature of the correct size
 	sigSize := offline_signature.SignatureSize(sigType)
 	if sigSize == 0 {
 		return sig.Signature{}, oops.
@@ -1004,20 +1007,59 @@ func createLeaseSet2Signature(signingKey interface{}, data []byte, sigType uint1
 			Errorf("unknown signature type: %d", sigType)
 	}
 
-	// TODO: Implement actual signing using the signingKey
-	// This would call into crypto/signature package to create real signatures
-	// For now, return an empty signature of the correct size
-	signatureData := make([]byte, sigSize)
+	if signingKey == nil {
+		log.WithFields(logger.Fields{
+			"signature_type": sigType,
+			"signature_size": sigSize,
+			"data_size":      len(data),
+		}).Warn("No signing key provided - created placeholder signature")
+		return sig.NewSignatureFromBytes(make([]byte, sigSize), int(sigType))
+	}
+
+	signatureData, err := signLeaseSet2Data(signingKey, data)
+	if err != nil {
+		return sig.Signature{}, err
+	}
+	if len(signatureData) != sigSize {
+		return sig.Signature{}, oops.
+			Code("signature_size_mismatch").
+			With("signature_type", sigType).
+			Errorf("signing key produced a %d-byte signature, signature type %d needs %d bytes",
+				len(signatureData), sigType, sigSize)
+	}
 	signature, err := sig.NewSignatureFromBytes(signatureData, int(sigType))
 	if err != nil {
 		return sig.Signature{}, oops.Errorf("failed to create signature: %w", err)
 	}
-
-	log.WithFields(logger.Fields{
-		"signature_type": sigType,
-		"signature_size": sigSize,
-		"data_size":      len(data),
-	}).Warn("Created placeholder signature - implement actual signing")
-
 	return signature, nil
+}
+
+// signLeaseSet2Data signs data with whichever kind of private key the caller supplied.
+func signLeaseSet2Data(signingKey interface{}, data []byte) ([]byte, error) {
+	switch key := signingKey.(type) {
+	case ed25519.PrivateKey:
+		if len(key) != ed25519.PrivateKeySize {
+			return nil, oops.Code("invalid_key_length").Errorf("Ed25519 private key must be %d bytes, got %d", ed25519.PrivateKeySize, len(key))
+		}
+		return ed25519.Sign(key, data), nil
+	case [64]byte:
+		return ed25519.Sign(key[:], data), nil
+	case []byte:
+		if len(key) != ed25519.PrivateKeySize {
+			return nil, oops.Code("invalid_key_length").Errorf("byte slice signing key must be %d bytes for Ed25519, got %d", ed25519.PrivateKeySize, len(key))
+		}
+		return ed25519.Sign(key, data), nil
+	case interface {
+		NewSigner() (types.Signer, error)
+	}:
+		signer, err := key.NewSigner()
+		if err != nil {
+			return nil, oops.Errorf("failed to create signer: %w", err)
+		}
+		return signer.Sign(data)
+	case types.Signer:
+		return key.Sign(data)
+	default:
+		return nil, oops.Code("unsupported_key_type").Errorf("unsupported signing key type: %T", signingKey)
+	}
 }
